@@ -58,6 +58,7 @@ SNIPPETS = [
     ("def f(xs, k):\n    out = []\n    for i in range(k):\n        for j in range(i):\n            out.append((i, j))\n    return out", None),
     ("def f(xs, k):\n    return 1 if k % 2 else -1, (k // 2) % 2, k ** 2, 2 ** 3", None),
     ("def f(xs, k):\n    t = tuple(xs)\n    return t.index(k) if k in t else -1", None),
+    ("def f(xs, k):\n    s = 'abcab'\n    def key(i):\n        c = s[i]\n        return ('ca'.find(c), c, not (i % 2))\n    return tuple(sorted(range(5), key=key)), sorted([3, 1, 2], reverse=True), sorted(['b', 'a'], key=lambda z: z)", None),
     ("def f(xs, k):\n    s = set()\n    n = 0\n    for x in xs:\n        if x not in s:\n            n += 1\n        s.add(x)\n    return n", None),
     ("def f(xs, k):\n    x = [0]\n    s = []\n    for size in xs:\n        x.append(x[-1] + size)\n        s.append((x[-2], x[-1]))\n    return s", None),
     ("def f(xs, k):\n    try:\n        a, b = k\n    except TypeError:\n        a = b = k\n    return a, b", None),
